@@ -50,6 +50,17 @@ Theorem sql_supported_documented vr d m lits :
 Proof. intros I. destruct d; vm_compute in I;
   repeat (destruct I as [I|I]; [inversion I; subst; clear I; sql_pick | ]); destruct I. Qed.
 
+(* a constant in any argument position: except for the four methods whose extra arguments MUST be literals (and are indexed with
+   their flags above), the templates do not look at whether an operand is a column or a literal, so the statement holds for
+   every assignment of literal flags *)
+Definition literal_arg_methods : list string := ["around"; "trimstr"; "is_in"; "mapv"].
+Theorem sql_supported_documented_any_literals vr d m lits0 :
+  In (m, lits0) (supported_sql d) -> str_in m literal_arg_methods = false ->
+  forall lits args r, sql_guard vr d m args = true -> spec_method mf mf2 m args = Some r ->
+    exists r', sql_eval mf mf2 vr d m lits args = Some r' /\ sv_eqv r' r.
+Proof. intros I NL lits. destruct d; vm_compute in I;
+  repeat (destruct I as [I|I]; [inversion I; subst; clear I; first [discriminate NL | sql_pick] | ]); destruct I. Qed.
+
 Ltac use2 L := let args := fresh "args" in let r := fresh "r" in let G := fresh "G" in let H := fresh "H" in
   intros args r G H; eapply L; [exact G | exact H].
 Ltac np_cmp_use test nr :=
